@@ -106,7 +106,7 @@ PROPS = {
                 assumptions=["placement probe: the recording strategy's code f(x, lane) is injective on the queries used"]),
     "C13": dict(bin="c13", oracle=False,
                 legs={"quick": [N],
-                      "thorough": [N, MIRI(0.001), ASAN(0.05)]},
+                      "thorough": [N, MIRI(0.0005), ASAN(0.05)]},
                 gates=[("counter_min", "observations_compared", 20000), ("counter_min", "query_storage_variants", 10),
                        ("hist_keys_min", "variation", 10), ("hist_keys_min", "storage_effective", 4),
                        ("hist_keys_min", "data_layout_class", 6)],
